@@ -161,6 +161,7 @@ def tlc(module, cfg, workdir, workers=None, env=None, timeout=900, simulate=None
         jopts = [f"-Xmx{heap}", "-Xss512m", "-XX:+UseParallelGC", "-XX:ParallelGCThreads=4"]
     if dfs:
         jopts.append("-Dtlc2.tool.queue.IStateQueue=StateDeque")
+    jopts.append(f"-Djava.io.tmpdir={meta}")       # TLC unpacks its standard modules into a temp directory per run
     cmd = ["java"] + jopts + ["-cp", TLA_CP, "tlc2.TLC", "-metadir", meta, "-config", cfg,
                               "-workers", str(workers or "auto"), "-noGenerateSpecTE"]
     if simulate:
